@@ -239,10 +239,27 @@ def st_case():
                      st.integers(0, 1 << 600), st.integers(0, 1 << 600))
 
 
+def _interleaved_jobs():
+    n1, n2 = gen.named("NIST256p").n, gen.named("SECP160r1").n
+    r1, s1, r2, s2 = n1 - 5, n1 // 2 + 3, 7, n2 - 1
+
+    def a():
+        der = U.sigencode_der(r1, s1, n1)
+        return [der, U.sigdecode_der(der, n1), U.sigencode_string(r1, s1, n1), U.sigdecode_string(U.sigencode_string(r1, s1, n1), n1),
+                U.sigdecode_strings(U.sigencode_strings(r1, s1, n1), n1)]
+
+    def b():
+        der = U.sigencode_der(r2, s2, n2)
+        return [der, U.sigdecode_der(der, n2), U.sigencode_strings(r2, s2, n2), U.sigdecode_string(U.sigencode_string(r2, s2, n2), n2),
+                U.number_to_string(s2, n2), U.string_to_number(U.number_to_string(s2, n2))]
+    return {"a": a, "b": b}
+
+
 def units(tier, seed):
     top = 110 if tier == "quick" else 300
     out = [("small-orders", {"lo": 2, "hi": top, "shard": i, "nshards": 10}) for i in range(10)]
     out.append(("named-boundary", {}))
+    out.append(("interleaved", {"stride": 1, "max": 3000 if tier == "quick" else 30000}))
     out.append(("random", {"examples": 3000 if tier == "quick" else 50000}))
     out.append(("raw-decoders", {}))
     out.append(("der-mutations", {"full": tier != "quick"}))
@@ -251,6 +268,10 @@ def units(tier, seed):
 
 
 def run_unit(ctx, name, **kw):
+    if name == "interleaved":
+        from .purity import interleaved_pure
+        interleaved_pure(ctx, "codecs", [U, D], _interleaved_jobs(), kw["stride"], max_schedules=kw["max"])
+        return
     if name == "small-orders":
         for n in range(kw["lo"], kw["hi"] + 1):
             if n % kw["nshards"] != kw["shard"]:
@@ -350,6 +371,10 @@ def run_unit(ctx, name, **kw):
 
 def replay(ctx, case):
     k = case["kind"]
+    if k == "interleaved":
+        from .purity import interleaved_pure
+        interleaved_pure(ctx, "codecs", [U, D], _interleaved_jobs(), 1, max_schedules=3000)
+        return
     if k == "enc":
         check_enc(ctx, case["n"], case["r"], case["s"])
     elif k == "helpers":
